@@ -95,49 +95,47 @@ fn log_rule_update(map: &RuleMap) {
     }
 }
 
+/// `append_rule` adds one rule to the rules already loaded for its resource.
+/// The controllers of the rules that are already active are kept as they are.
+/// Returns `false` when the rule is already loaded, invalid or cannot be built.
+// This func acquires locks on global `RULE_MAP` and `CONTROLLER_MAP`,
+// please release your locks on them before calling this func
 pub fn append_rule(rule: Arc<Rule>) -> bool {
-    if RULE_MAP
-        .lock()
-        .unwrap()
+    let mut global_rule_map = RULE_MAP.lock().unwrap();
+    if global_rule_map
         .get(&rule.resource)
-        .unwrap_or(&HashSet::new())
-        .contains(&rule)
+        .map_or(false, |rules| rules.contains(&rule))
     {
         return false;
     }
-    match rule.is_valid() {
-        Ok(_) => {
-            RULE_MAP
-                .lock()
-                .unwrap()
-                .entry(rule.resource.clone())
-                .or_default()
-                .insert(Arc::clone(&rule));
-        }
-        Err(err) => logging::warn!(
-            "[Hot Spot append_rule] Ignoring invalid flow rule {:?}, reason: {:?}",
+    if let Err(err) = rule.is_valid() {
+        logging::warn!(
+            "[HotSpot append_rule] Ignoring invalid hotspot param flow rule {:?}, reason: {:?}",
             rule,
             err
-        ),
+        );
+        return false;
     }
-    let mut placeholder = Vec::new();
-    let new_tcs_of_res = build_resource_traffic_shaping_controller(
+    let mut controller_map = CONTROLLER_MAP.write().unwrap();
+    // build the controller of the new rule only
+    let mut single_rule = HashSet::with_capacity(1);
+    single_rule.insert(Arc::clone(&rule));
+    let new_tcs = build_resource_traffic_shaping_controller(
         &rule.resource,
-        RULE_MAP.lock().unwrap().get(&rule.resource).unwrap(),
-        CONTROLLER_MAP
-            .write()
-            .unwrap()
-            .get_mut(&rule.resource)
-            .unwrap_or(&mut placeholder),
+        &single_rule,
+        &mut Vec::new(),
     );
-    if !new_tcs_of_res.is_empty() {
-        CONTROLLER_MAP
-            .write()
-            .unwrap()
-            .entry(rule.resource.clone())
-            .or_default()
-            .push(Arc::clone(&new_tcs_of_res[0]));
+    if new_tcs.is_empty() {
+        return false;
     }
+    controller_map
+        .entry(rule.resource.clone())
+        .or_default()
+        .extend(new_tcs);
+    global_rule_map
+        .entry(rule.resource.clone())
+        .or_default()
+        .insert(rule);
     true
 }
 
